@@ -848,6 +848,36 @@ print($f())
     return $g()
 print($f("p"))
 '''),
+    # private-style names (two leading underscores) used as ordinary variables inside classes: whatever spelling the implementation gives them internally,
+    # every occurrence in every nested scope - comprehensions, lambdas, nested functions - must mean the same variable
+    # (only uses inside ONE class: a name that crosses the class boundary is mangled by CPython and not by gpython - name mangling is not part of the property)
+    ('private-name-param-in-listcomp', '''class $C:
+    def m(self, __$x, __$y):
+        return [__$x + e + __$y for e in ["a", "b"]]
+print($C().m("<", ">"))
+'''),
+    ('private-name-local-in-comprehensions', '''__$x = "global"
+class $C:
+    def m(self):
+        __$x = "local"
+        return ([__$x + e for e in "ab"], {e: __$x for e in "a"}, sorted({__$x + e for e in "ab"}), list(__$x + e for e in "ab"), [e for e in "ab" if __$x == "local"])
+print($C().m())
+'''),
+    ('private-name-closure-and-lambda', '''class $C:
+    def m(self):
+        __$x = "a"
+        def $g():
+            nonlocal __$x
+            __$x = __$x + "b"
+            return lambda: __$x + "c"
+        return $g()(), __$x
+print($C().m())
+'''),
+    ('private-name-genexp-nested-twice', '''class $C:
+    def m(self, __$x):
+        return [[__$x + a + b for a in "ab"] for b in "cd"]
+print($C().m("-"))
+'''),
     # ---- declarations the language forbids
     ('E:nonlocal-without-binding', 'def $f():\n    nonlocal $x\n    $x = 1\n'),
     ('E:nonlocal-without-binding-global-exists', '$x = 1\ndef $f():\n    nonlocal $x\n'),
